@@ -1300,13 +1300,20 @@ func (s *server) SampleRowKeys(req *btpb.SampleRowKeysRequest, stream btpb.Bigta
 	var offset int64
 	var err error
 	var lastRow *btpb.Row
+	send := func(resp *btpb.SampleRowKeysResponse) error {
+		// Reverse the lock while streaming the key out (as ReadRows does): a client
+		// that stops reading must not block the writers of the table.
+		tbl.mu.RUnlock()
+		defer tbl.mu.RLock()
+		return stream.Send(resp)
+	}
 	tbl.rows.Ascend(func(r *btpb.Row) bool {
 		if rand.Int31n(100) == 0 {
 			resp := &btpb.SampleRowKeysResponse{
 				RowKey:      r.Key,
 				OffsetBytes: offset,
 			}
-			err = stream.Send(resp)
+			err = send(resp)
 			if err != nil {
 				return false
 			}
@@ -1322,7 +1329,7 @@ func (s *server) SampleRowKeys(req *btpb.SampleRowKeysRequest, stream btpb.Bigta
 			RowKey:      lastRow.Key,
 			OffsetBytes: offset - int64(rowsize(lastRow)),
 		}
-		err = stream.Send(resp)
+		err = send(resp)
 	}
 	return err
 }
